@@ -19,9 +19,11 @@ Chk(label, F) == IF F THEN {} ELSE {label}
 Labels == {"C16_Selected", "C16_San", "C16_AcmeId", "C16_SelfSignedValid", "C16_RefuseForeign", "C17_Alive", "C17_NextValidServed"}
 
 Acme == "acme-tls/1"
-Behaviours == {"connect_close", "garbage", "plain_http", "tls_no_alpn", "tls_foreign_alpn", "abandon_after_hello", "stalled_50"}
+Behaviours == {"connect_close", "garbage", "plain_http", "tls_no_alpn", "tls_foreign_alpn", "abandon_after_hello", "stalled_50",
+               "fd_exhaustion"}     \* more idle connections at once than the daemon has descriptors: accept() itself fails for a while
 (* which behaviours end in a failed handshake on the server side *)
-FailsHandshake(b) == b \in {"connect_close", "garbage", "plain_http", "tls_foreign_alpn", "abandon_after_hello", "stalled_50"}
+FailsHandshake(b) == b \in {"connect_close", "garbage", "plain_http", "tls_foreign_alpn", "abandon_after_hello", "stalled_50", "fd_exhaustion"}
+FailsAccept(b) == b = "fd_exhaustion"
 
 SeqToSet(s) == {s[i] : i \in 1..Len(s)}
 
@@ -40,7 +42,9 @@ JudgeTls(offer, res, want) ==
 (* a hostile / failed connection *)
 Hostile(b) ==
     /\ alive
-    /\ alive' = IF FailsHandshake(b) /\ "HandshakeFailPanics" \in Deviations /\ "PanicAbort" \in Deviations THEN FALSE ELSE alive
+    /\ alive' = IF \/ FailsHandshake(b) /\ "HandshakeFailPanics" \in Deviations /\ "PanicAbort" \in Deviations
+                   \/ FailsAccept(b) /\ "AcceptErrorEndsLoop" \in Deviations        \* `?' on the result of accept()
+                THEN FALSE ELSE alive
     /\ hist' = Append(hist, b) /\ bad' = {} /\ UNCHANGED lastValid
 
 (* a conforming validation attempt *)
@@ -60,10 +64,15 @@ Emit == LastIs("valid") => PrintT(<<"REPLAY", ToJson(hist)>>)
 -----------------------------------------------------------------------------
 (* The ALPN case split (C16), as openssl_server.rs implements it: select_next_proto(acme-tls/1, client list), *)
 (* a fatal alert when nothing matches, and OpenSSL's behaviour when the client sends no ALPN extension.        *)
-Protos == {Acme, "h2", "http/1.1"}
+(* names that merely look like the ACME protocol identifier: RFC 7301 compares identifiers byte for byte *)
+LookAlikes == {"acme-tls/10", "acme-tls/1.1"}
+ProtosQuick == {Acme, "h2", "http/1.1", "acme-tls/10", "acme-tls/"}
+ProtosFull == ProtosQuick \cup {"acme-tls/1.1", "ACME-TLS/1"}
+Protos == ProtosQuick
 Want0 == [domain |-> "dns:d", value |-> "v"]
 ModelRes(offer) ==
-    IF Acme \in SeqToSet(offer) \/ ("AlpnAcceptsAnything" \in Deviations /\ offer # <<>>)
+    IF \/ Acme \in SeqToSet(offer) \/ ("AlpnAcceptsAnything" \in Deviations /\ offer # <<>>)
+       \/ ("AlpnPrefixMatch" \in Deviations /\ SeqToSet(offer) \cap LookAlikes # {})    \* starts_with instead of equality
     THEN [completed |-> TRUE, selected |-> IF Acme \in SeqToSet(offer) THEN Acme ELSE offer[1], sans |-> <<"dns:d">>,
           acme_critical |-> TRUE, acme_value |-> "v", self_signed |-> TRUE, valid_now |-> TRUE]
     ELSE IF offer # <<>>
